@@ -2,6 +2,7 @@ import YarlProofs.C19
 import YarlProofs.C19Str
 import YarlProofs.C19Ctor
 import YarlProofs.C19Writer
+import YarlProofs.C19Quoter
 /-!
 # C19 — Failures are reported only as ValueError/TypeError; nothing crashes   (audit layer)
 
@@ -20,7 +21,14 @@ constructors valueError, typeError, indexError, keyError, attributeError, unicod
 valueError ∨ typeError ∨ oracleMiss.  `StrOK e u` := `str(u)` returns.  `withPath`, `withFragment`, `parent`,
 `join` and the path/query/fragment accessors are TOTAL functions in the model (no `R`): nothing to prove.
 `Writer.run n faults cs` (YarlModel/Writer.lean) is one quoting call at the level of the C `Writer`:
-static buffer of `n` bytes, `faults i` = "the i-th malloc/realloc fails".
+static buffer of `n` bytes, `faults i` = "the i-th malloc/realloc fails".  `QuoteW.quoteCW` (YarlModel/QuoteW.lean,
+C19Quoter.lean) is the compiled quoter's own loop written through that writer (see the section on it below).
+
+Fixes followed since this file was first written (they touch which errors `build()` raises, not the statements):
+c2c2803 — `build(authority=…)` runs the NFKC screen on a non-ASCII authority, as the parser does (ValueError, or a
+question to the `unicodedata` oracle); e21485a — `build` lower-cases the scheme (a non-ASCII scheme asks the
+`str.lower` oracle).  Known finding of this property: F-C19-encoded-str (`C19_headline_str_total_fails_for_encoded`,
+`…_fails_for_encoded_authority`, `C19_headline_str_total_encoded_iff`).
 -/
 namespace Yarl
 open ErrLemmas NetlocLemmas StrTotal EagerLemmas
@@ -29,7 +37,10 @@ open ErrLemmas NetlocLemmas StrTotal EagerLemmas
     -- Appendix E: C19_kinds (c : ApiCall) ↦ the four theorems of this section (there is no `ApiCall`
     --   datatype: one conjunct per entry point); the conclusion gained the disjunct `oracleMiss`. -/
 
-/-- constructors (both modes) and build -/
+/-- constructors (both modes) and build.  `build`: ValueError (conflicting arguments, port out of range, a relative path
+    under an authority, an authority that does not split, host errors incl. IDNA, and — fix c2c2803 — the NFKC screen of
+    a non-ASCII `authority=`), TypeError (port of a wrong type, query values), or a question to an oracle (idna,
+    unicodedata, and — fix e21485a, `scheme.lower()` — `str.lower` of a non-ASCII scheme) -/
 theorem C19_headline_kinds_constructors (e : Env) (err : PyErr) :
     (∀ s, encodeUrl e s = .error err → err = .valueError ∨ ∃ f a, err = .oracleMiss f a) ∧
     (∀ s, preEncodedUrl e s = .error err → err = .valueError ∨ ∃ f a, err = .oracleMiss f a) ∧
@@ -92,15 +103,18 @@ theorem C19_headline_no_crash (e : Env) (u : Url) :
 /-- "an object that build() … returned can always be turned into a string" — `host=` route, no condition on
     user / password / port texts -/
 theorem C19_headline_str_total_build (e : Env) (a : BuildArgs) (u : Url)
-    -- encoded=True is outside the guarantee (caller vouches for the text): `C19_headline_str_total_fails_for_encoded`
+    -- encoded=True is outside the guarantee (caller vouches for the text): KNOWN FINDING F-C19-encoded-str,
+    -- `C19_headline_str_total_fails_for_encoded`; exact condition: `C19_headline_str_total_encoded_iff`
     (henc : a.encoded = false)
-    (hauth : a.authority = []) : build e a = .ok u → StrOK e u :=
+    (hauth : a.authority = []) :                -- the `host=` route (the other route: next theorem)
+    build e a = .ok u → StrOK e u :=
   C19_build_str_total e a u henc hauth
 
 /-- … `authority=` route: total for an all-ASCII argument; for a non-ASCII host it needs the IDNA answer to
     introduce none of ':' '@' ']' (ASSUMED of the `idna` package) -/
-theorem C19_headline_str_total_build_authority (e : Env) (a : BuildArgs) (u : Url) (henc : a.encoded = false)
-    (hauth : a.authority ≠ []) :
+theorem C19_headline_str_total_build_authority (e : Env) (a : BuildArgs) (u : Url)
+    (henc : a.encoded = false)                  -- guard: F-C19-encoded-str (`C19_headline_str_total_fails_for_encoded_authority`)
+    (hauth : a.authority ≠ []) :                -- the `authority=` route
     (isAscii a.authority = true → build e a = .ok u → StrOK e u) ∧
     ((∀ np h0, splitNetloc e.o a.authority = .ok np → np.host = some h0 → isAscii h0 = false →
         ∀ r, idnaEncode e.o h0 = .ok r → ∀ c, (c = 58 ∨ c = 64 ∨ c = 93) → c ∈ r → c ∈ h0) →
@@ -108,13 +122,57 @@ theorem C19_headline_str_total_build_authority (e : Env) (a : BuildArgs) (u : Ur
   ⟨fun h => C19_build_authority_ascii_arg_total e a u henc hauth h,
    fun h => C19_build_authority_bracketed_str_total e a u henc hauth h⟩
 
-/-- `build(host="a:b", encoded=True)` and `URL("http://h:x/", encoded=True)` are accepted and cannot be printed
-    (documented garbage-in; the error is a ValueError) -/
+/-- KNOWN FINDING F-C19-encoded-str: `build(host="a:b", encoded=True)` and `URL("http://h:x/", encoded=True)` are
+    accepted and cannot be printed (documented garbage-in — but the property text has no such exemption; the error is
+    a ValueError).  This is what the guard `henc : a.encoded = false` of the two theorems above excludes. -/
 theorem C19_headline_str_total_fails_for_encoded (e : Env) :
     (∃ u, build e { scheme := "http".toStr, host := "a:b".toStr, encoded := true } = .ok u ∧
       str e u = .error .valueError) ∧
     (∃ u, preEncodedUrl e "http://h:x/".toStr = .ok u ∧ u.netloc = "h:x".toStr ∧ str e u = .error .valueError) :=
   ⟨C19_build_encoded_counterexample e, C19_preencoded_counterexample e⟩
+
+/-- KNOWN FINDING F-C19-encoded-str, the witness of the finding record: `URL.build(scheme="http",
+    authority="h:99999", encoded=True)` is accepted — with encoded=True nothing is validated, the authority is stored
+    verbatim — and `str()` of the result raises ValueError (port out of range), for every backend and oracle table. -/
+theorem C19_headline_str_total_fails_for_encoded_authority (e : Env) :
+    ∃ u, build e { scheme := "http".toStr, authority := "h:99999".toStr, encoded := true } = .ok u ∧
+      u.netloc = "h:99999".toStr ∧ str e u = .error .valueError :=
+  ⟨_, rfl, rfl, rfl⟩
+
+/-- F-C19-encoded-str, EXACT form (narrows GAPS 4): an object returned by `build()` — encoded=True or not — or by
+    `URL(s, encoded=True)` can be turned into a string IF AND ONLY IF its stored authority splits (`split_netloc`
+    accepts it: the port text after the last '@' is empty or a number ≤ 65535 …).  With encoded=False this always holds
+    (`C19_headline_str_total_build`, `…_build_authority`); with encoded=True it is the caller's responsibility.
+    Cites `C19_twin_str_total_iff`, `C09_no_prefill` (these producers pre-fill no cache), `C19_preencoded_str_total_iff`. -/
+theorem C19_headline_str_total_encoded_iff (e : Env) (u : Url)
+    (hmade : (∃ a, build e a = .ok u) ∨ (∃ s, preEncodedUrl e s = .ok u)) :  -- `u` is a build() / URL(s, encoded=True) result
+    StrOK e u ↔ ∃ r, splitNetloc e.o u.netloc = .ok r := by
+  have hpre : u.pre = none := by
+    rcases hmade with ⟨a, h⟩ | ⟨s, h⟩
+    · exact (C09_no_prefill e).2.1 a u h
+    · exact (C09_no_prefill e).1 s u h
+  have := C19_twin_str_total_iff e u
+  rwa [C09_twin_of_pre_none u hpre] at this
+
+/-- the side condition `u.pre = none` of `C19_headline_str_total_modifiers` holds for every producer except the
+    auto-encoding constructor: `URL(s, encoded=True)`, `build()`, and every modifier result (`pickleTwin v = v` says
+    `v.pre = none`; with_fragment / extend_query may hand back `u` itself, `join` its argument).
+    Cites `C09_no_prefill`, `C09_modifiers_no_prefill` (C09.lean). -/
+theorem C19_headline_str_total_cache_free (e : Env) (u : Url) :
+    (∀ s v, preEncodedUrl e s = .ok v → v.pre = none) ∧ (∀ a v, build e a = .ok v → v.pre = none) ∧
+    (∀ x v, withUser e u x = .ok v → pickleTwin v = v) ∧ (∀ x v, withPassword e u x = .ok v → pickleTwin v = v) ∧
+    (∀ x v, withHost e u x = .ok v → pickleTwin v = v) ∧ (∀ x k v, withPort e u x k = .ok v → pickleTwin v = v) ∧
+    (∀ x v, withScheme e u x = .ok v → pickleTwin v = v) ∧
+    (∀ p enc kq kf, pickleTwin (withPath e u p enc kq kf) = withPath e u p enc kq kf) ∧
+    (∀ a v, withQuery e u a = .ok v → pickleTwin v = v) ∧ (∀ a v, updateQuery e u a = .ok v → pickleTwin v = v) ∧
+    (∀ a v, extendQuery e u a = .ok v → pickleTwin v = v ∨ v = u) ∧
+    (∀ f, pickleTwin (withFragment e u f) = withFragment e u f ∨ withFragment e u f = u) ∧
+    (∀ n kq kf v, withName e u n kq kf = .ok v → pickleTwin v = v) ∧
+    (∀ x kq kf v, withSuffix e u x kq kf = .ok v → pickleTwin v = v) ∧
+    (∀ ps enc v, makeChild e u ps enc = .ok v → pickleTwin v = v) ∧
+    (∀ v, relative u = .ok v → pickleTwin v = v) ∧
+    (∀ r, pickleTwin (join e u r) = join e u r ∨ join e u r = r) :=
+  ⟨(C09_no_prefill e).1, (C09_no_prefill e).2.1, C09_modifiers_no_prefill e u⟩
 
 /-- "… or a modifier returned": from a printable URL without pre-filled cache (every build / modifier / join /
     unpickle result) every modifier result is printable again — so printability is an invariant -/
@@ -149,6 +207,34 @@ theorem C19_headline_str_total_constructor (e : Env) (s : Str) (u : Url) (h : en
     ⟨r.1, r.2.1, fun b rr hb hr => C19_join_str_total e b rr hb hr,
      fun v hv => C19_origin_str_total e u v r.1 r.2.1 hv⟩⟩
 
+/-- … the pickled / copied constructor result prints, and prints the same text (under `GoodAuthority`); and WITHOUT
+    `GoodAuthority` the four modifiers that REBUILD the netloc from the cache (with_user, with_password, with_port,
+    with_host) still give printable results when every IDNA answer has the shape of a host text (no '@', no ']' next
+    to a ':' — ASSUMED of the `idna` package).  Cites `C19_twin_str_total`, `C19_constructor_rebuilders` (C19Ctor.lean). -/
+theorem C19_headline_str_total_constructor_twin_rebuilders (e : Env) (s : Str) (u : Url)
+    (h : encodeUrl e s = .ok u) :                   -- `u = URL(s)`
+    (GoodAuthority e s →                            -- C09's guard; needed: `C19_headline_str_total_constructor_fails_for_hostile_idna`
+      StrOK e (pickleTwin u) ∧ str e (pickleTwin u) = str e u) ∧
+    ((∀ x r, idnaEncode e.o x = .ok r → HostShapeStr r) →   -- ASSUMED of the IDNA oracle
+      (∀ usr v, withUser e u usr = .ok v → StrOK e v) ∧
+      (∀ pw v, withPassword e u pw = .ok v → StrOK e v) ∧
+      (∀ port kind v, withPort e u port kind = .ok v → StrOK e v) ∧
+      (∀ h v, withHost e u h = .ok v → StrOK e v)) :=
+  ⟨fun hg => C19_twin_str_total e s u h hg, fun hidna => C19_constructor_rebuilders e s u hidna h⟩
+
+/-- `GoodAuthority` cannot be dropped in `C19_headline_str_total_constructor` (model corner, only with a HOSTILE IDNA
+    oracle; no real IDNA encoder answers a ':'): with an `idna` table that answers "a:x" for "é", `URL("http://é/")`
+    prints `http://a:x/` from its cache, but its pickle twin and the result of `with_fragment("f")` raise ValueError
+    in `str()`.  Cites `C19_twin_needs_good_authority` (C19Ctor.lean). -/
+theorem C19_headline_str_total_constructor_fails_for_hostile_idna :
+    let e : Env := { b := .c, o := C19_hostileIdna }
+    let s := "http://".toStr ++ [233] ++ "/".toStr
+    (encodeUrl e s).bind (str e) = .ok "http://a:x/".toStr ∧
+    (encodeUrl e s).bind (fun u => str e (pickleTwin u)) = .error .valueError ∧
+    (encodeUrl e s).bind (fun u => str e (withFragment e u (some "f".toStr))) = .error .valueError ∧
+    ¬ GoodAuthority e s :=
+  C19_twin_needs_good_authority
+
 /-! ## Sentence 2 — allocation failure in the compiled quoter (Writer.lean)
     -- Appendix E: C19_writer_faults ↦ Writer.C19_writer_faults; C19_writer_release ↦ Writer.C19_writer_release
     --   (`frees = heapAllocsLive` became `live = [] ∧ freed.Nodup ∧ freed.length ≤ 1`, `staticNeverFreed` is
@@ -178,12 +264,113 @@ theorem C19_headline_writer_later_calls (n : Nat) (hn : 0 < n) (f1 : Nat → Boo
     (Writer.run n (fun _ => false) cs2).1 = .ok cs2 :=
   Writer.C19_writer_after_failure n hn f1 cs1 cs2
 
+/-! ### the compiled quoter itself, written THROUGH the writer (closes GAPS 5 (b); C19Quoter.lean, YarlModel/QuoteW.lean)
+
+    `QuoteW.quoteCW n t faults s` is `_Quoter._do_quote_or_skip` transcribed statement by statement with every
+    output character going through `_write_char` of the writer above (static buffer of `n` bytes, growth by `n`
+    through malloc then realloc, `faults i` = "the i-th growth request is refused"); its value is the pair
+    (what the call returns / raises, final writer state).  `quoteC t s` / `QArgs.run .c` is the batch model of the
+    compiled quoter used by every other property; `cOut t v` is the text it writes for the surrogate-free input
+    `v = stripSurr s`, `allSafe t v` the fast-path test (nothing to quote: no writer is touched), `cChanged` the
+    final `writer.changed` flag.  `QuoteW.session n t faults k ss` runs the calls `ss` one after the other on ONE
+    process-wide fault oracle (each call consumes the requests it makes; `k` requests were made before);
+    `QuoteW.reqs rs` is the number of requests a list of finished calls made. -/
+
+/-- REFINEMENT: on the slow path the interleaved loop of `_do_quote` IS `Writer.run` applied to the batch output
+    `cOut` (then the `changed` test), and the final writer state is literally that of `Writer.run` — so
+    `C19_headline_writer` above is a statement about the compiled quoter; on the fast path no writer is used.
+    Every buffer size, table, fault pattern, input.  Cites `C19_quoteCW_refines_run`. -/
+theorem C19_headline_memory_quoter_refines_writer (n : Nat) (t : QTab) (faults : Nat → Bool) (s : Str) :
+    (allSafe t (stripSurr s) = true → QuoteW.quoteCW n t faults s = (.ok (stripSurr s), Writer.init n)) ∧
+    (allSafe t (stripSurr s) = false →
+      QuoteW.quoteCW n t faults s =
+        ((Writer.run n faults (cOut t (stripSurr s))).1.map
+            (fun d => if cChanged t (stripSurr s) then d else stripSurr s),
+         (Writer.run n faults (cOut t (stripSurr s))).2)) :=
+  C19_quoteCW_refines_run n t faults s
+
+/-- "If memory allocation fails inside the compiled quoter the call raises MemoryError, nothing is corrupted" — for
+    the compiled quoter ITSELF, at the real buffer size (`Gen.bufSize`, extracted from the `.pyx`), every `_Quoter`
+    keyword configuration `a`, every fault pattern, every input: the call returns what `QArgs.run .c` returns or
+    raises MemoryError; MemoryError EXACTLY when the call takes the slow path and a growth request that the output
+    length needs is refused (request `k` is needed iff the output has more than `(k+1)·BUF_SIZE` characters: "every
+    single allocation-failure point"); no fault ⇒ the result; an output that fits the static buffer cannot fail;
+    leak-free on every path (no heap block live, none freed twice, the static buffer never freed).
+    Cites `C19_headline_quoter_memory` (C19Quoter.lean; same statement). -/
+theorem C19_headline_memory_quoter (a : QArgs) (faults : Nat → Bool) (s : Str) :
+    let r := QuoteW.quoteCW Gen.bufSize a.tabC faults s
+    (r.1 = .ok (a.run .c s) ∨ r.1 = .error .memoryError) ∧
+    (r.1 = .error .memoryError ↔
+      allSafe a.tabC (stripSurr s) = false ∧
+      ∃ k, (k + 1) * Gen.bufSize < (cOut a.tabC (stripSurr s)).length ∧ faults k = true) ∧
+    ((∀ i, faults i = false) → r.1 = .ok (a.run .c s)) ∧
+    ((cOut a.tabC (stripSurr s)).length ≤ Gen.bufSize → r.1 = .ok (a.run .c s)) ∧
+    (r.2.live = [] ∧ r.2.freed.Nodup ∧ r.2.staticFreed = false ∧ r.2.freed.length ≤ 1) :=
+  C19_headline_quoter_memory a faults s
+
+/-- … which request was refused: after a MemoryError the final writer state has made `k = w.allocs` successful
+    requests, request `k` was the refused one and all earlier ones were granted; exactly `(k+1)·n` characters had
+    been written (the buffer was full); the buffer is still the static one iff `k = 0` (the refused request was the
+    malloc).  Cites `C19_quoteCW_fault_index`. -/
+theorem C19_headline_memory_fault_index (n : Nat) (t : QTab) (faults : Nat → Bool) (s : Str)
+    (hn : 0 < n)                                                    -- guard: the static buffer has at least one byte
+    (h : (QuoteW.quoteCW n t faults s).1 = .error .memoryError) :   -- the call raised MemoryError
+    let w := (QuoteW.quoteCW n t faults s).2
+    faults w.allocs = true ∧ (∀ j, j < w.allocs → faults j = false) ∧
+    w.data.length = (w.allocs + 1) * n ∧ (w.allocs + 1) * n < (cOut t (stripSurr s)).length ∧
+    (w.buf = .static ↔ w.allocs = 0) :=
+  C19_quoteCW_fault_index n hn t faults s h
+
+/-- "and later calls return correct results" — for SEQUENCES of calls of the compiled quoter on one process-wide fault
+    oracle (narrows GAPS 5 (c)): every call of a session returns the batch result or raises MemoryError and ends
+    leak-free; and whatever happened in the calls `ss1` (any number of MemoryErrors), if no request made AFTER them
+    is refused, all later calls `ss2` return exactly the batch results.  (Still by construction: each call starts
+    with `_init_writer`; the session only threads the fault oracle.)  Cites `C19_quoteCW_session_sound`,
+    `C19_quoteCW_later_calls`. -/
+theorem C19_headline_memory_later_calls (n : Nat) (t : QTab) (faults : Nat → Bool) (ss1 ss2 : List Str)
+    (hn : 0 < n) :                                  -- guard: the static buffer has at least one byte (`0 < Gen.bufSize`)
+    ((QuoteW.session n t faults 0 (ss1 ++ ss2)).length = (ss1 ++ ss2).length ∧
+      ∀ p ∈ List.zip (ss1 ++ ss2) (QuoteW.session n t faults 0 (ss1 ++ ss2)),
+        (p.2.1 = .ok (quoteC t p.1) ∨ p.2.1 = .error .memoryError) ∧
+        p.2.2.live = [] ∧ p.2.2.freed.Nodup ∧ p.2.2.staticFreed = false ∧ p.2.2.freed.length ≤ 1) ∧
+    ((∀ i, QuoteW.reqs (QuoteW.session n t faults 0 ss1) ≤ i → faults i = false) →
+      (QuoteW.session n t faults 0 (ss1 ++ ss2)).map (·.1) =
+        (QuoteW.session n t faults 0 ss1).map (·.1) ++ ss2.map (fun s => .ok (quoteC t s))) :=
+  ⟨C19_quoteCW_session_sound n hn t faults 0 (ss1 ++ ss2), C19_quoteCW_later_calls n t faults ss1 ss2⟩
+
+/-- the compiled UNQUOTER (`QuoteW.unquoteCW`: `_Unquoter._do_unquote`; its own output is a Python list, its only
+    writer activity are two inner `_Quoter` calls on a one-character string): an inner call writes at most 12
+    characters, so at the real buffer size NO fault pattern can make it fail — it returns the batch result
+    `unquoteC`; for an arbitrary buffer size: the batch result or MemoryError.
+    Cites `C19_unquoteCW_never_fails`, `C19_unquoteCW_fault`. -/
+theorem C19_headline_memory_unquoter (faults : Nat → Bool) (s : Str) :
+    (∀ u : UTab, QuoteW.unquoteCW Gen.bufSize u faults s = .ok (unquoteC u s)) ∧
+    (∀ (n : Nat) (u : UTab), QuoteW.unquoteCW n u faults s = .ok (unquoteC u s) ∨
+      QuoteW.unquoteCW n u faults s = .error .memoryError) :=
+  ⟨fun u => C19_unquoteCW_never_fails Gen.bufSize (by decide) u faults s,
+   fun n u => C19_unquoteCW_fault n u faults s⟩
+
 /-! ## non-vacuity -/
 example : (Writer.run 2 (fun i => i == 1) [1, 2, 3, 4, 5]).1 = .error .memoryError ∧
     (Writer.run 2 (fun i => i == 1) [1, 2, 3, 4, 5]).2.freed = [0] ∧
     (Writer.run 2 (fun i => i == 1) [1, 2, 3, 4]).1 = .ok [1, 2, 3, 4] := by decide
 example (e : Env) : build e { host := "h".toStr, portKind := 1 } = .error .typeError := by rfl
 example (e : Env) : encodeUrl e "http://[::1/a".toStr = .error .valueError := by rfl
+-- fix e21485a: `build` stores the scheme lower-case; a non-ASCII scheme asks the `str.lower` oracle
+example (e : Env) : (build e { scheme := "HTTP".toStr, host := "h".toStr }).map (·.scheme) = .ok "http".toStr := by rfl
+example (b : Backend) : ∃ f a, build ⟨b, Oracles.empty⟩ { scheme := [233], host := "h".toStr } = .error (.oracleMiss f a) :=
+  ⟨_, _, rfl⟩
+-- fix c2c2803: `build(authority="a／b")` (U+FF0F) is NFKC-screened: ValueError when the table says it normalises to
+-- "a/b", a question to the oracle when the table is empty
+example (b : Backend) : build ⟨b, { Oracles.empty with nfkc := fun _ => some "a/b".toStr }⟩
+    { scheme := "http".toStr, authority := [97, 0xFF0F, 98] } = .error .valueError := by rfl
+example (b : Backend) : ∃ f a, build ⟨b, Oracles.empty⟩ { scheme := "http".toStr, authority := [97, 0xFF0F, 98] } =
+    .error (.oracleMiss f a) := ⟨_, _, rfl⟩
+-- the compiled quoter through its writer: "a b" quotes to "a%20b" (5 characters); with a 2-byte buffer it needs the
+-- requests 0 and 1; refusing request 1 gives MemoryError, refusing nothing gives the batch result
+example : (QuoteW.quoteCW 2 Gen.PATH_QUOTER.tabC (fun i => i == 1) "a b".toStr).1 = .error .memoryError ∧
+    (QuoteW.quoteCW 2 Gen.PATH_QUOTER.tabC (fun _ => false) "a b".toStr).1 = .ok "a%20b".toStr ∧
+    quoteC Gen.PATH_QUOTER.tabC "a b".toStr = "a%20b".toStr := by decide +kernel
 
 /-
 GAPS:
@@ -202,24 +389,47 @@ GAPS:
     unreachable; `human_quote` on a lone surrogate (UnicodeEncodeError, a ValueError) is modelled as
     valueError.  Accessors on a URL with an unsplittable stored authority (encoded=True) raise ValueError —
     allowed, but arguably a "leak" at accessor time rather than at construction.
- 4. "an object that build() or a modifier returned can always be turned into a string": proved for
-    build(encoded=False) [host route unconditionally; authority route: ASCII unconditionally, non-ASCII
-    under an assumption on the IDNA answer], every modifier on a printable cache-free URL, the constructor,
-    join, origin.  FALSE for encoded=True (C19_headline_str_total_fails_for_encoded) — documented
-    garbage-in, not excluded by the property text.  Modifiers applied DIRECTLY to a constructor result
-    with a pre-filled cache need `GoodAuthority` (`C19_constructor_then_modifiers`; needed:
-    `C19_twin_needs_good_authority`, only with a hostile IDNA oracle).
+ 4. PARTLY CLOSED (narrowed) by C19_twin_str_total_iff + C09_no_prefill + C19_preencoded_str_total_iff (C19Ctor.lean,
+    C09.lean), see C19_headline_str_total_encoded_iff: a result of build() (any `encoded`) or of URL(s, encoded=True)
+    prints IF AND ONLY IF its stored authority splits.  The side condition `u.pre = none` of
+    C19_headline_str_total_modifiers is discharged for every producer but the auto-encoding constructor
+    (C19_headline_str_total_cache_free).  WHAT REMAINS, unchanged: "an object that build() or a modifier returned can
+    always be turned into a string" is proved for build(encoded=False) [host route unconditionally; authority route:
+    ASCII unconditionally, non-ASCII under an assumption on the IDNA answer], every modifier on a printable
+    cache-free URL, the constructor, join, origin.  It is FALSE for encoded=True — KNOWN FINDING F-C19-encoded-str
+    (C19_headline_str_total_fails_for_encoded, C19_headline_str_total_fails_for_encoded_authority: the witness
+    `build(scheme="http", authority="h:99999", encoded=True)`) — documented garbage-in, not excluded by the property
+    text; an unprintable encoded=True object is outside the modifier theorem (its hypothesis `StrOK e u` fails).  In the
+    model with_path / joinpath with encoded=True keep the stored authority and are covered by
+    C19_headline_str_total_modifiers for every `enc`, so the finding arises only from an authority stored unvalidated
+    by build(encoded=True) / URL(s, encoded=True).  Modifiers applied DIRECTLY to
+    a constructor result with a pre-filled cache need `GoodAuthority` (`C19_constructor_then_modifiers`; needed:
+    C19_headline_str_total_constructor_fails_for_hostile_idna, only with a hostile IDNA oracle) — except
+    with_user / with_password / with_port / with_host, which need only an assumption on the IDNA answers
+    (C19_headline_str_total_constructor_twin_rebuilders, which also gives the pickle twin under `GoodAuthority`).
     "turned into a string" is `str()`; `bytes(url)`/`repr` are not modelled (C01 gives ASCII-ness).
  5. MEMORY CLAUSE — what is MODELLED: YarlModel/Writer.lean, a state machine for `_write_char` /
     `_release_writer` with an arbitrary fault oracle; proved for every buffer size: result is all-or-
     MemoryError, no leak / double free / free of the static buffer, no overflow, small outputs never fail.
-    What is ASSUMED (no proof link): (a) that the `.pyx` Writer is this state machine (hand transcription;
-    only `BUF_SIZE` is extracted from the source: `Gen.bufSize`); (b) that the quoter's output `cs` is what
-    is fed to it — Quote.lean's C backend does NOT go through Writer.lean, so "the quoter raises
-    MemoryError" is not a theorem about `QArgs.run .c`; (c) "later calls return correct results": each call
-    re-initialises the writer (`init`), stated but true by construction; the shared static buffer's stale
-    contents and the GIL-protected reuse are outside the model; (d) PyMem_Malloc / PyUnicode_DecodeASCII
-    failure paths other than buffer growth (e.g. allocation of the result string) are not modelled;
-    (e) the pure-Python backend has no such clause.
+    (b) CLOSED by C19_quoteCW_refines_run and C19_headline_quoter_memory (C19Quoter.lean, over YarlModel/QuoteW.lean),
+    see C19_headline_memory_quoter_refines_writer, C19_headline_memory_quoter, C19_headline_memory_fault_index:
+    the compiled quoter's loop, transcribed with every output character going through the writer, equals
+    `Writer.run` on the batch output `cOut`; hence for every `_Quoter` configuration, input and fault pattern at the
+    real buffer size the call returns what `QArgs.run .c` returns or raises MemoryError — MemoryError exactly when a
+    needed growth request is refused — and ends leak-free.  The compiled unquoter (inner quoter calls through the
+    writer) cannot fail at the real buffer size: C19_headline_memory_unquoter.
+    (a) PARTLY CLOSED: the transcription now covers `_do_quote_or_skip` / `_do_quote` / `_write` / `_write_pct` /
+    `_write_utf8` / `_do_unquote` statement by statement (QuoteW.lean), and it is PROVED equal to the batch models
+    `quoteC` / `unquoteC` that all other properties use when no request is refused (C19_quoteCW_no_fault,
+    C19_unquoteCW_no_fault, C19Quoter.lean); that the `.pyx` source IS this transcription remains a
+    hand-transcription ASSUMPTION (only `BUF_SIZE` is extracted from the source: `Gen.bufSize`).
+    (c) PARTLY CLOSED by C19_quoteCW_session_sound, C19_quoteCW_later_calls, see C19_headline_memory_later_calls:
+    sequences of calls on ONE process-wide fault oracle — after any number of MemoryErrors, if no request made after them
+    is refused, every later call returns the batch result.  Still true by construction in one respect: each call
+    re-initialises the writer (`_init_writer`); the shared static buffer's stale contents and the GIL-protected
+    reuse are outside the model.
+    STILL ASSUMED / not modelled: (d) PyMem_Malloc / PyUnicode_DecodeASCII failure paths other than buffer growth
+    (e.g. allocation of the result string, of the `_Unquoter`'s output list) are not modelled; (e) the pure-Python
+    backend has no such clause.
 -/
 end Yarl
